@@ -73,24 +73,8 @@ func readOnlyResult(c *ssa.Call) bool {
 					return false
 				}
 				// the row: same discipline
-				for _, r3 := range *u.Referrers() {
-					switch z := r3.(type) {
-					case *ssa.IndexAddr:
-						for _, r4 := range *z.Referrers() {
-							if u2, ok := r4.(*ssa.UnOp); !ok || u2.Op != token.MUL {
-								if _, dbg := r4.(*ssa.DebugRef); !dbg {
-									return false
-								}
-							}
-						}
-					case *ssa.BinOp, *ssa.DebugRef:
-					case *ssa.Call:
-						if bi, ok := z.Call.Value.(*ssa.Builtin); !ok || bi.Name() != "len" {
-							return false
-						}
-					default:
-						return false
-					}
+				if !readOnlyRow(u, map[ssa.Value]bool{}) {
+					return false
 				}
 			}
 		case *ssa.BinOp, *ssa.DebugRef:
@@ -123,15 +107,28 @@ func (g *cgraph) defineFindAllElem(x *ssa.UnOp, key string) {
 	if !ok || col < 0 {
 		return
 	}
-	c, idx, ok := rowOf(ia.X)
-	if !ok || !readOnlyResult(c) {
-		return
-	}
-	g.define(idx, 4)
-	g.defineFindAllRow(c, idx)
-	rk, _, _, ok := g.rowKey(c, idx)
-	if !ok {
-		return
+	var c *ssa.Call
+	var rk string
+	if ph, isPhi := ia.X.(*ssa.Phi); isPhi {
+		// some row of the list (which one depends on the path): the facts about a single row hold
+		c = phiOfRows(ph, map[ssa.Value]bool{})
+		if c == nil || !readOnlyResult(c) {
+			return
+		}
+		rk = g.a.regKey(c) + "@phi:" + ph.Name() + "+0"
+		g.defineFindAllRowAt(c, "phi:"+ph.Name(), 0)
+	} else {
+		var idx ssa.Value
+		c, idx, ok = rowOf(ia.X)
+		if !ok || !readOnlyResult(c) {
+			return
+		}
+		g.define(idx, 4)
+		g.defineFindAllRow(c, idx)
+		rk, _, _, ok = g.rowKey(c, idx)
+		if !ok {
+			return
+		}
 	}
 	sub, _ := findAllKind(c)
 	own := fmt.Sprintf("fa%d(%s)", col, rk)
@@ -400,3 +397,71 @@ func (g *cgraph) carriedMatchEnd(ph *ssa.Phi, key string) {
 
 var _ = sort.Strings
 var _ = strings.TrimSpace
+
+// readOnlyRow: the row value (or a phi it flows into) is only indexed for loads, measured or compared.
+func readOnlyRow(v ssa.Value, seen map[ssa.Value]bool) bool {
+	if seen[v] {
+		return true
+	}
+	seen[v] = true
+	for _, r3 := range *v.Referrers() {
+		switch z := r3.(type) {
+		case *ssa.IndexAddr:
+			for _, r4 := range *z.Referrers() {
+				if u2, ok := r4.(*ssa.UnOp); !ok || u2.Op != token.MUL {
+					if _, dbg := r4.(*ssa.DebugRef); !dbg {
+						return false
+					}
+				}
+			}
+		case *ssa.BinOp, *ssa.DebugRef:
+		case *ssa.Phi:
+			if !readOnlyRow(z, seen) {
+				return false
+			}
+		case *ssa.Call:
+			if bi, ok := z.Call.Value.(*ssa.Builtin); !ok || bi.Name() != "len" {
+				return false
+			}
+		default:
+			return false
+		}
+	}
+	return true
+}
+
+// phiOfRows: ph merges nil and rows of one FindAll result (possibly through itself): that result.
+func phiOfRows(ph *ssa.Phi, seen map[ssa.Value]bool) *ssa.Call {
+	if seen[ph] {
+		return nil
+	}
+	seen[ph] = true
+	var list *ssa.Call
+	for _, e := range ph.Edges {
+		if e == ssa.Value(ph) {
+			continue
+		}
+		if c, ok := e.(*ssa.Const); ok && c.IsNil() {
+			continue
+		}
+		var c *ssa.Call
+		if p2, ok := e.(*ssa.Phi); ok {
+			c = phiOfRows(p2, seen)
+			if c == nil && !seen[p2] {
+				return nil
+			}
+			if c == nil {
+				continue
+			}
+		} else if rc, _, ok := rowOf(e); ok {
+			c = rc
+		} else {
+			return nil
+		}
+		if list != nil && list != c {
+			return nil
+		}
+		list = c
+	}
+	return list
+}
